@@ -82,6 +82,14 @@ func (s *Shard) Init() error {
 		if err := s.writeCache.Init(shardID); err != nil {
 			return fmt.Errorf("could not initialize %T: %w", s.writeCache, err)
 		}
+		if s.GetMode() == mode.ReadOnly {
+			// every component is opened for writing, but a shard that is
+			// configured as read-only must not start flushing its cache
+			// while the rest is being initialized
+			if err := s.writeCache.SetMode(mode.ReadOnly); err != nil {
+				return fmt.Errorf("could not set %T mode: %w", s.writeCache, err)
+			}
+		}
 	}
 
 	if s.metaBaseOpenErr != nil {
@@ -118,6 +126,14 @@ func (s *Shard) Init() error {
 	}
 
 	s.gc.init()
+
+	// components were opened and initialized for writing whatever mode the
+	// shard is configured with, bring them in line with it
+	if m := s.GetMode(); m != mode.ReadWrite {
+		if err := s.SetMode(m); err != nil {
+			return fmt.Errorf("could not set configured mode %s: %w", m, err)
+		}
+	}
 
 	return nil
 }
